@@ -105,3 +105,25 @@ Lemma as_audio_elementwise : forall dc k2a l st,
   as_audio dc k2a (Lst l) st = bind (mapM (as_audio dc k2a) l) (fun l' => ret (Lst l')) st /\
   as_audio dc k2a (Tuple l) st = bind (mapM (as_audio dc k2a) l) (fun l' => ret (Tuple l')) st.
 Proof. intros; split; [apply as_audio_lst|apply as_audio_tuple]. Qed.
+
+(* ---- named operators ---------------------------------------------------------------------- *)
+Lemma cl_binop_named_law : forall base la lb st, la <> [] -> lb <> [] ->
+  cl_binop_named base (Lst la) (Lst lb) st =
+  bind (loop (fun i => match nth_error la (i mod length la), nth_error lb (i mod length lb) with
+                       | Some x, Some y => list_binop (scalar_binop_named base) x y (elem_kind x y)
+                       | _, _ => raise IndexError
+                       end) 0 (Nat.max (length la) (length lb)))
+       (fun r => ret (Lst r)) st.
+Proof.
+  intros base la lb st Ha Hb. unfold cl_binop_named.
+  rewrite list_binop_fused by (try reflexivity; assumption). reflexivity.
+Qed.
+(* the reflected case: a number on the left, a signal on the right: ONE unit (name, number, signal) *)
+Lemma scalar_binop_named_reflected : forall base z u c st,
+  scalar_binop_named base (Scalar (K z)) (Scalar (U u c)) st =
+  new1_rated base 1 binop_ratef [Scalar (K z); Scalar (U u c)] st /\
+  scalar_binop_named base (Scalar (U u c)) (Scalar (K z)) st =
+  new1_rated base 1 binop_ratef [Scalar (U u c); Scalar (K z)] st.
+Proof.
+  intros. split; cbn [scalar_binop_named]; apply multi_new_no_list; repeat constructor.
+Qed.
